@@ -251,6 +251,8 @@ int main(void) {
         else if (strcmp(tok[0], "X") == 0) cmd_x2w(nt, tok);
         else if (strcmp(tok[0], "E") == 0) c15_cmd_encoder(nt, tok, 0);
         else if (strcmp(tok[0], "ed") == 0) c15_cmd_encoder(nt, tok, 1);
+        else if (strcmp(tok[0], "F") == 0) c15_cmd_encoder(nt, tok, 2);
+        else if (strcmp(tok[0], "fd") == 0) c15_cmd_encoder(nt, tok, 3);
         else if (strcmp(tok[0], "mk") == 0) cmd_mk(nt, tok);
         else printf("bad\n");
         fflush(stdout);
